@@ -7,6 +7,7 @@ mod findings;
 mod inventory;
 mod minimise;
 mod model;
+mod mutate;
 mod plan;
 mod project;
 mod props;
